@@ -96,3 +96,49 @@ def current_update():
         if meth == "update":
             return comp
     return None
+
+
+class RefusalLog:
+    """Where does a request that an output refuses with a time error fall relative to what the
+    recorder saw being published on that output? 'inside_published_range' means the data existed and
+    is no longer retained; 'beyond_newest_publication' means it was never published. Structural, so
+    that classifications do not depend on the wording of exception messages."""
+
+    def __init__(self):
+        self.first, self.newest, self.events = {}, {}, []
+        self._classified = None  # the exception object classified last (it passes several wrappers while propagating)
+        REC.on("out_push_data_ret", self._push)
+        REC.on("ada_source_updated", self._notified)
+        REC.on("out_get_data_err", self._err)
+        REC.on("ada_get_data_err", self._err)
+
+    def _saw(self, slot, time):
+        if time is None:
+            return
+        self.first.setdefault(slot, time)
+        if slot not in self.newest or time > self.newest[slot]:
+            self.newest[slot] = time
+
+    def _push(self, outp, _ret, _data=None, time=None):
+        self._saw(outp, time)
+
+    def _notified(self, ada, time=None):
+        self._saw(ada, time)  # a buffering adapter's history is what it was notified of
+
+    def _err(self, slot, exc, time=None, _target=None):
+        if not isinstance(exc, fm.FinamTimeError) or time is None or exc is self._classified:
+            return
+        self._classified = exc
+        lo, hi = self.first.get(slot), self.newest.get(slot)
+        if lo is None:
+            where = "nothing_published"
+        elif time > hi:
+            where = "beyond_newest_publication"
+        elif time < lo:
+            where = "before_first_publication"
+        else:
+            where = "inside_published_range"
+        self.events.append(dict(slot=slot.name, where=where))
+
+    def last(self):
+        return self.events[-1]["where"] if self.events else None
